@@ -42,7 +42,9 @@ RULE = (
     "Tn in 10^[-2,3]) x kind: (landmarks) vJ, minVelocity, findvwLTE; (matching) wall velocity from classes with "
     "mass at v_min, c_b, v_J and 0.99 -> findMatching, findHydroBoundaries, efficiencyFactor. Every quantity from "
     "both solvers at (1e-6,1e-10) and (1e-9,1e-12). Non-trivial = both sides return numbers (not sentinels/None) "
-    "and, for the matching kind, vw not within 1e-3 of v_min, c_b, v_J. Distinct by canonical JSON of the case."
+    "and, for the matching kind, vw not within 1e-3 of v_min, c_b, v_J. In a third of the cases all four solver objects "
+    "first answer efficiencyFactor for one or two other walls (hybrid / detonation / deflagration) - call history on "
+    "one object. Distinct by canonical JSON of the case."
 )
 BUDGET = {
     "quick": {"cases": 800, "shrink": True, "time_cap_s": 900},
@@ -75,6 +77,7 @@ ASSUMPTIONS = [
     "envelope with a convergence relation is used (DESIGN 2.4.4).",
 ]
 EXHAUSTIVE_SUBDOMAINS = []
+WARM_CLASSES = ["hyb", "hyb", "det", "det", "defl"]
 VCLASSES = ["vmin", "vmin+", "defl", "defl", "defl", "cb-", "cb+", "hyb", "hyb", "hyb", "vJ-", "vJ-", "vJ+", "vJ+",
             "det", "det", "v099"]
 
@@ -108,9 +111,15 @@ def st_template15(draw):
 @st.composite
 def st_case(draw, tier):
     spec = draw(st_template15())
+    # call history: in a third of the cases both solvers first answer efficiencyFactor for one or two OTHER walls
+    # (hybrids / detonations integrate the rarefaction wave, deflagrations the shock) before the compared queries
+    warm = None
+    if draw(st.integers(0, 2)) == 0:
+        warm = [[draw(st.sampled_from(WARM_CLASSES)), draw(_f(0.0, 1.0))] for _ in range(draw(st.integers(1, 2)))]
     if draw(st.integers(0, 9)) < 3:
-        return {"kind": "landmarks", "eos": spec}
-    return {"kind": "matching", "eos": spec, "vclass": draw(st.sampled_from(VCLASSES)), "u": draw(_f(0.0, 1.0))}
+        return {"kind": "landmarks", "eos": spec, "warm": warm}
+    return {"kind": "matching", "eos": spec, "vclass": draw(st.sampled_from(VCLASSES)), "u": draw(_f(0.0, 1.0)),
+            "warm": warm}
 
 
 def strategy(tier):
@@ -581,6 +590,26 @@ def check_case(case) -> Verdict:
             v.label("outcome:init-ValueError-in-margin")
             return v.discarded("margin:alpha=1/3")
         raise
+    if case.get("warm"):
+        # earlier queries on the same objects (the answers themselves are compared in other cases); whatever they
+        # leave behind must not change the compared answers below - the reference has no history
+        T0 = pairs["L0"].t
+        lo = max(T0.vMin, pairs["L0"].g.vMin)
+        for vclass, u in case["warm"]:
+            vw0 = Z.velocity(vclass, u, lo, float(T0.cb), T0.vJ)
+            if abs(vw0 - float(T0.cb)) < 1e-4 * float(T0.cb):
+                continue     # the template solver may not return next to c_b (see Z.velocity)
+            for P in pairs.values():
+                # (efficiencyFactor is only defined where a matching exists - as in the compared queries below)
+                for obj in (P.g, P.t):
+                    if call(obj.findMatching, vw0)[0] == "num":
+                        try:
+                            call(obj.efficiencyFactor, vw0)
+                        except TypeError:    # its own internal matching came back as None (same rule as below)
+                            v.label("warm:TypeError-none-matching")
+        v.label("history:warm-" + "+".join(sorted({w[0] for w in case["warm"]})))
+    else:
+        v.label("history:fresh")
     if case["kind"] == "landmarks":
         return check_landmarks(case, v, th, meta, eos, pairs)
     return check_matching(case, v, th, meta, eos, pairs)
